@@ -103,6 +103,19 @@ Definition spec_variant (t : table) (i : nat) (impl : sx) : bool :=
 Fixpoint spellings_of (name : str) (l : list (str * list str)) : list str :=
   match l with [] => [] | (n, ss) :: r => if str_eqb n name then ss else spellings_of name r end.
 
+Fixpoint standard_of (name s : str) (l : list (str * str * str)) : option str :=
+  match l with
+  | [] => None
+  | (n, legacy, standard) :: r => if str_eqb n name && str_eqb legacy s then Some standard else standard_of name s r
+  end.
+
+(** a legacy name of [SpecSpellings.spec_aliases] prints as its standard name *)
+Definition legacy_ok (d : decl) (s : str) (impl : sx) : bool :=
+  match standard_of (d_name d) s spec_aliases with
+  | Some standard => match impl with SL [SN 0; SL (_ :: SS disp :: _)] => str_eqb disp standard | _ => false end
+  | None => true
+  end.
+
 Definition specified_ok (d : decl) (s : str) (impl : sx) : bool :=
   if mem_str s (spellings_of (d_name d) (spec_spellings ++ spec_event_types)) then
     match impl with
@@ -123,7 +136,7 @@ Definition run (x : sx) : sx :=
       | Some (d, has_as_ref) =>
           let t := table_of d in
           match k, args with
-          | 0%Z, [SS s] => SL [model_one d has_as_ref s; sx_bool (spec_one t s impl && specified_ok d s impl)]
+          | 0%Z, [SS s] => SL [model_one d has_as_ref s; sx_bool (spec_one t s impl && specified_ok d s impl && legacy_ok d s impl)]
           | 1%Z, [SS a; SS b] => SL [model_pair d a b; sx_bool (spec_pair t a b impl)]
           | 2%Z, [i] => match as_nat i with
                         | Some i => SL [model_variant d i; sx_bool (spec_variant t i impl)]
